@@ -35,9 +35,8 @@ theorem C16_gen_comparisons :
 
 /-- guard shapes the model's `authenticate`, `loginOk`, `changePassword`, `disableUser`, `logoutUser` rely on -/
 theorem C16_gen_guards :
-    Gen.Session.authGuarded = true ∧
-    Gen.Session.authTest = ["user", "not user.disabled", "user.password == password"] ∧
-    Gen.Session.authReturnsUserElseNone = true ∧
+    -- `authenticate_user`, `_login`, `disable_user` / `_is_last_admin` are no longer textual pins: they are translated statement by
+    -- statement and proved equal to the model's tests in Props/C16Tr.lean (`C16_gen_login_guards`, `C16_gen_disable_user`)
     Gen.Session.chpwGuarded = true ∧
     Gen.Session.chpwTest = ["user", "user.password == current_password"] ∧
     Gen.Session.chpwSetsPasswordAndLogsOut = true ∧
@@ -45,12 +44,8 @@ theorem C16_gen_guards :
     Gen.Session.logoutUserIteratesSnapshotOfUsersSessions = true ∧
     Gen.Session.logoutUserForced = true ∧
     Gen.Session.logoutGuardSkippedOnlyWhenForced = true ∧
-    Gen.Session.lastAdminTest = "username in self.admins and len(self.admins) == 1" ∧
     Gen.Session.adminsExpr = "{k: v for k, v in self.users.items() if v.is_admin and (not v.disabled)}" ∧
-    Gen.Session.disableGuarded = true ∧
-    Gen.Session.disableRefusesLastAdmin = true ∧
     Gen.Session.userDeletions = [] ∧
-    Gen.Session.loginGuarded = true ∧ Gen.Session.loginAuthenticates = true ∧ Gen.Session.loginChecksLimit = true ∧
     Gen.Session.timeoutToleratesMissingConnection = true := by decide
 
 /-- terminal: a command is executed only under `_check_client_connection`, which is "live session and known connection";
